@@ -440,7 +440,7 @@ fn run(ctx: &Arc<Ctx>) {
         }
     }
     ctx.run_enumerated("charset-bytes", "charsetbyte", bytes, Some("256 byte values x {no ECI, 0, 3, 11, 13, 26, 27} x {ASCII/upper shift, Base256} x {no macro, Macro 05, Macro 06}"), check_charset_byte);
-    ctx.run_generated("payloads", "payload", ctx.cases(600_000, 12_000_000), g_payload, check_payload);
+    ctx.run_generated("payloads", "payload", ctx.cases(1_500_000, 15_000_000), g_payload, check_payload);
 }
 
 fn replay(_ctx: &Ctx, kind: &str, case: &Value) -> Option<Verdict> {
